@@ -26,7 +26,10 @@ BOUNDS = {
 OUTSIDE = ['chunking of the byte stream (C21: frame-level delivery is justified there); header '
            'content (C13-C15); deeper crossings than one call per side; an endpoint that has '
            'closed the connection itself (exempted by the property)']
-ASSUMPTIONS = ['frames travel as captured frame objects (hyperframe contract: parse(serialize(f)) '
+ASSUMPTIONS = ['frame_size_pair shards: hpack is replaced on both sides by length-preserving '
+               'stand-ins (an opaque block of symbolic length / a fixed decoded list), also in '
+               'the native replay; hyperframe and the FrameBuffer are real there',
+               'frames travel as captured frame objects (hyperframe contract: parse(serialize(f)) '
                '== f, validated for every frame class at every run); natively as real bytes']
 
 SIDS = (1, 2, 3)
@@ -435,6 +438,88 @@ def make_window_pair(target):
     return h
 
 
+class _LenEncoder:
+    """hpack contract stand-in: an opaque block of the given length (native replays: that
+    many zero bytes; the receiving side decodes with _FixedDecoder)"""
+    header_table_size = 4096
+
+    def __init__(self, n):
+        self.n = n
+
+    def encode(self, headers):
+        list(headers)
+        if CTX.mode == 'sym':
+            return models.LenBytes(self.n)
+        return b'\x00' * self.n
+
+
+class _FixedDecoder:
+    max_header_list_size = 2 ** 32
+    max_allowed_table_size = 4096
+
+    def __init__(self, headers):
+        from hpack import HeaderTuple
+        self.headers = [HeaderTuple(n, v) for n, v in headers]
+
+    def decode(self, data, raw=False):
+        return list(self.headers)
+
+
+def make_frame_size_pair(sender_client, what):
+    """the receiver changes its MAX_FRAME_SIZE twice (both acknowledged), the sender then
+    sends, on a stream that lived through both changes, DATA of symbolic length or a header
+    block of symbolic encoded length: whatever the sender lets through, the receiver accepts"""
+    def h():
+        from h2.settings import SettingCodes
+        from engine.core import assume_z, s_le
+        with h2h.native():
+            p = Pair()
+            exc, cap, em = do_call(p, 'c', ('send_headers', 1, 'post', False), False)
+            exchange(p, 'c', em)
+            exc, cap, em = do_call(p, 's', ('send_headers', 1, 'resp', False), False)
+            exchange(p, 's', em)
+        S, R = ('c', 's') if sender_client else ('s', 'c')
+        snd, rcv = p.side(S), p.side(R)
+        m1 = sym_int('max_frame_size_1', 2 ** 14, 2 ** 24 - 1, default=32768)
+        m2 = sym_int('max_frame_size_2', 2 ** 14, 2 ** 24 - 1, default=16384)
+        for m in (m1, m2):
+            cap = models.Out(rcv.me)
+            rcv.me.update_settings({SettingCodes.MAX_FRAME_SIZE: m,
+                                    SettingCodes.INITIAL_WINDOW_SIZE: INT31})
+            log = exchange(p, R, _take(rcv, cap))
+            for d, evs, exc in log:
+                check(exc is None, 'settings-exchange-rejected:%s' % type(exc).__name__, None)
+        h2h.Adapter.set_conn_out_window(snd.me, INT31)
+        h2h.Adapter.set_wm(h2h.Adapter.conn_wm(rcv.me), INT31, INT31, 0)
+        cap = models.Out(snd.me)
+        try:
+            if what == 'data':
+                from engine.models import sym_bytes
+                snd.me.send_data(1, sym_bytes('n', 0, 2 ** 24 + 10, default=20000))
+            else:
+                # at most 6 fragments even at the smallest legal frame size
+                B = sym_int('B', 1, 6 * (2 ** 14), default=40000)
+                assume_z(s_le(B, 3 * m2))
+                snd.me.encoder = _LenEncoder(B)
+                rcv.me.decoder = _FixedDecoder(h2h.TRAILERS)
+                snd.me.send_headers(1, h2h.TRAILERS, end_stream=True)
+        except h2.exceptions.ProtocolError:
+            note('refused')
+            return
+        except AssertionError:
+            # the library's own sanity check fired -- after the frame was queued
+            note('crashed')
+            check(False, 'crash:AssertionError:frame-larger-than-peer-limit-queued:' + what,
+                  None)
+            return
+        note('sent')
+        log = exchange(p, S, _take(snd, cap))
+        for d, evs, exc in log:
+            check(exc is None, 'peer-rejects-successful-send:%s:frame-size:%s' % (
+                what, type(exc).__name__), repr(exc)[:80])
+    return h
+
+
 def make_header_pair(direction, rep, nlen, vlen):
     """header fidelity across the pair with a fully symbolic field: what the sender's
     encoder was shown is what the receiver's decoder returns (hpack contract); if the send
@@ -556,6 +641,12 @@ def shards(tier, seed):
     for target in ('open', 'reserved', 'pushed-open'):
         out.append(Shard('window_pair/' + target, make_window_pair(target), budget=200,
                          expect=['sent', 'refused']))
+    for sender_client in (True, False):
+        for what in ('data', 'header-block'):
+            out.append(Shard('frame_size_pair/%s/%s' % ('client' if sender_client else 'server',
+                                                        what),
+                             make_frame_size_pair(sender_client, what), budget=200,
+                             expect=['sent', 'refused'] if what == 'data' else ['sent']))
     for direction in ('request', 'response'):
         for rep in ('bytes', 'str', 'HeaderTuple'):
             for nlen, vlen in ((5, 2), (10, 1)):
